@@ -33,8 +33,8 @@ def shards(tier):
 
 
 def floors(tier):
-    return {"const_checked": 20000, "enum_checked": 40000, "unique_checked": 40000, "pairs_equal": 5000,
-            "pairs_unequal": 5000, "depth0": 500, "depth1": 500, "depth2": 500, "depth3": 500,
+    return {"const_checked": 20000, "enum_checked": 40000, "unique_checked": 40000, "pairs_equal": 3000,
+            "pairs_unequal": 4000, "depth0": 500, "depth1": 500, "depth2": 500, "depth3": 500,
             "arrays_all_scalar": 500, "arrays_sortable_containers": 500, "arrays_unsortable": 500,
             "uniq_regions_hit": 1, "container_class_variants": 5000, "nested_placements": 10000, "aliased_subvalues": 5000}
 
